@@ -105,6 +105,13 @@ theorem reindexAxis_grows {h h' : H} {r r' : Ref} {d : Nat} {labels : List Int}
       · exact reorderAxis_grows hop
   · cases hop
 
+theorem dsVar_grows {h h' : H} {r r' : Ref} (hop : dsVar h r = some (h', r')) :
+    Grows h h' ∧ r' < h'.length := by
+  unfold dsVar at hop
+  split at hop
+  · exact alloc_res (mapAlloc_grows _ deepAxis_grows _ _) hop
+  · cases hop
+
 theorem xapply_grows {h : H} {env : List Ref} {x : XOp} {h' : H} {r : Ref}
     (hop : xapply h env x = some (h', r)) : Grows h h' ∧ r < h'.length := by
   cases x with
@@ -141,6 +148,10 @@ theorem xapply_grows {h : H} {env : List Ref} {x : XOp} {h' : H} {r : Ref}
     simp only [xapply, Option.bind_eq_some_iff] at hop
     obtain ⟨q, _, hq⟩ := hop
     exact reindexAxis_grows hq
+  | dsVar k =>
+    simp only [xapply, Option.bind_eq_some_iff] at hop
+    obtain ⟨q, _, hq⟩ := hop
+    exact dsVar_grows hq
 
 theorem xstep_base (s : St) (op : Op) : xstep s (.base op) = step s op := rfl
 
